@@ -344,6 +344,25 @@ def virtSetVol (muted : Nat → Bool) (root : Nat) (vol : Int) : Int :=
 def voiceVol (c : PlayerVol) (muted : Nat → Bool) (chn root : Nat) (fv : Int) : Int :=
   virtSetVol muted root (masterStage c chn root fv)
 
+/-- shift of the volume-table lookup: `m->volbase == 0xff ? … >> 2 … : … >> 4 …` -/
+def volTableShift (volbaseFF : Bool) : Nat := if volbaseFF then volTableShiftFF.getD 2 else volTableShiftElse.getD 4
+
+/-- index into `m->vol_table[]` -/
+def volTableIndex (volbaseFF : Bool) (fv : Int) : Int := fv >>> volTableShift volbaseFF
+
+/-- the volume translation table stage of `process_volume` (PTM, Archimedes Tracker, Coconizer):
+`finalvol = m->vol_table[finalvol >> s] << s`; no table: unchanged -/
+def volTableStage (table : Option (Int → Int)) (volbaseFF : Bool) (fv : Int) : Int :=
+  match table with
+  | none => fv
+  | some t => t (volTableIndex volbaseFF fv) * 2 ^ volTableShift volbaseFF
+
+/-- the tail of `process_volume` in the order of the code: volume table first, then the master / effects-mixer
+scaling, then the mute lookup of `libxmp_virt_setvol` -/
+def volumeTail (c : PlayerVol) (muted : Nat → Bool) (chn root : Nat) (table : Option (Int → Int)) (volbaseFF : Bool)
+    (fv : Int) : Int :=
+  voiceVol c muted chn root (volTableStage table volbaseFF fv)
+
 /-- Amiga split channel (`xc->split`, Oktalyzer pairs): `libxmp_virt_setvol(ctx, xc->pair, finalvol)` at the very end
 of `process_volume` — the partner's voice gets the volume *after* the master / effects-mixer scaling of the channel
 that computed it, through the partner's own mute lookup -/
